@@ -59,12 +59,68 @@ for c in cases:
                 entries_back = [[l, col, m.source, m.source_line, m.source_column] for (l, col), m in back.entries.items()]
                 rec[key][ann] = {"teal": res.teal, "entries": entries, "entries_back": entries_back,
                                  "source_root": js.get("sourceRoot"), "sources": js.get("sources"),
+                                 "mappings": js.get("mappings"),
                                  "annotated": res.sourcemap.annotated_teal}
     except Exception as e:
         rec["fatal"] = "%s: %s" % (type(e).__name__, str(e)[:300])
     out.append(rec)
 json.dump(out, open(sys.argv[3], "w"))
 '''
+
+
+# ------------------------------------------------------------------ independent Source Map Revision 3 codec
+_B64 = "ABCDEFGHIJKLMNOPQRSTUVWXYZabcdefghijklmnopqrstuvwxyz0123456789+/"
+
+
+def my_vlq_encode(*values):
+    out = []
+    for v in values:
+        x = ((-v) << 1) | 1 if v < 0 else v << 1
+        while True:
+            d = x & 31
+            x >>= 5
+            out.append(_B64[d | (32 if x else 0)])
+            if not x:
+                break
+    return "".join(out)
+
+
+def my_vlq_decode(s):
+    vals, shift, acc = [], 0, 0
+    for ch in s:
+        d = _B64.index(ch)
+        acc |= (d & 31) << shift
+        if d & 32:
+            shift += 5
+        else:
+            vals.append(-(acc >> 1) if acc & 1 else acc >> 1)
+            shift, acc = 0, 0
+    if shift:
+        raise ValueError("truncated VLQ")
+    return vals
+
+
+def my_r3_decode(js):
+    """Source Map Revision 3 'mappings' -> {(line, column): (source, source_line, source_column)}; every field of
+    a segment is a delta: the column restarts at 0 on every line, the other three run through the whole map"""
+    sources = js.get("sources", [])
+    out = {}
+    si = sl = sc = 0
+    for line, segs in enumerate(js["mappings"].split(";")):
+        col = 0
+        if not segs:
+            continue
+        for seg in segs.split(","):
+            f = my_vlq_decode(seg)
+            col += f[0]
+            if len(f) >= 4:
+                si += f[1]
+                sl += f[2]
+                sc += f[3]
+                out[(line, col)] = (sources[si], sl, sc)
+            else:
+                out[(line, col)] = (None, None, None)
+    return out
 
 
 # ------------------------------------------------------------------ (a) (b)
@@ -74,15 +130,22 @@ def codec_checks(rep, tier):
     lim = 70000 if tier == "quick" else 300000
     for v in range(-lim, lim + 1):
         rep.add("traces_validated")
-        if _base64vlq_decode(_base64vlq_encode(v)) != [v]:
-            viol.append({"driver": "vlq", "size": 1, "title": "VLQ round trip of %d gives %r" % (v, _base64vlq_decode(_base64vlq_encode(v))),
+        enc = _base64vlq_encode(v)
+        if _base64vlq_decode(enc) != [v]:
+            viol.append({"driver": "vlq", "size": 1, "title": "VLQ round trip of %d gives %r" % (v, _base64vlq_decode(enc)),
                          "value": [v], "features": {"why": "vlq"}})
+        elif enc != my_vlq_encode(v) or _base64vlq_decode(my_vlq_encode(v)) != [v]:
+            viol.append({"driver": "vlq", "size": 1, "title": "VLQ of %d is %r, the Revision-3 encoding is %r" % (v, enc, my_vlq_encode(v)),
+                         "value": [v], "independent": True, "features": {"why": "vlq vs spec"}})
     alpha = [0, 1, -1, 15, -15, 16, -16, 31, -31, 32, -32, 1023, -1023, 1024, -1024, 1 << 20, -(1 << 20)]
     for n in range(1, 5 if tier == "thorough" else 4):
         for t in itertools.product(alpha, repeat=n):
             rep.add("traces_validated")
             if _base64vlq_decode(_base64vlq_encode(*t)) != list(t):
                 viol.append({"driver": "vlq", "size": n, "title": "VLQ round trip of %r fails" % (t,), "value": list(t), "features": {"why": "vlq"}})
+            elif _base64vlq_encode(*t) != my_vlq_encode(*t):
+                viol.append({"driver": "vlq", "size": n, "title": "VLQ of %r differs from the Revision-3 encoding" % (t,), "value": list(t),
+                             "independent": True, "features": {"why": "vlq vs spec"}})
     rep.add("states", 2 * lim + 1)
     # (b) every map with <= 3 target lines x <= 2 columns per line over small alphabets of sources / positions
     srcs = [None, "a.py", "b.py"]
@@ -104,10 +167,15 @@ def codec_checks(rep, tier):
             nmaps += 1
             rep.add("traces_validated")
             try:
-                back = R3SourceMap.from_json(m.to_json())
+                js = m.to_json()
+                back = R3SourceMap.from_json(js)
                 got = {k: (v.source, v.source_line, v.source_column) for k, v in back.entries.items()}
                 want = {k: (v.source, v.source_line, v.source_column) for k, v in entries.items()}
                 ok = got == want
+                if ok:
+                    # the JSON must also mean the same under the Revision-3 rules, decoded independently
+                    got = my_r3_decode(js)
+                    ok = got == want
             except Exception as e:
                 ok, got = False, repr(e)
             if not ok:
@@ -197,6 +265,14 @@ def check_result(case, files, markers, on, off, viol, rep):
                     break
                 if r["entries_back"] != ent:
                     bad("Revision-3 JSON does not decode back to the same associations")
+                else:
+                    try:
+                        mine = my_r3_decode({"sources": r["sources"], "mappings": r["mappings"]})
+                    except Exception as e:
+                        mine = repr(e)
+                    want = {(l, c): (src, sl, sc) for l, c, src, sl, sc in ent}
+                    if mine != want:
+                        bad("Revision-3 JSON, decoded by the Revision-3 rules, gives other associations than the map holds")
                 if ann != "off":
                     a = [strip_comment(x) for x in (r["annotated"] or "").split("\n")]
                     b = [strip_comment(x) for x in plain_on.split("\n")]
